@@ -3,7 +3,7 @@
    Statements only. *)
 From Coq Require Import ZArith List Bool.
 From CP Require Import Core.Bytes Spec.PL Spec.KeyTag Spec.DnsSpec Dns.KeyTag Lemmas.KeyTagLemmas Lemmas.DnsSpecLemmas.
-From CP Require Import Spec.Registry Lemmas.RegistryTables.
+From CP Require Import Spec.Registry Lemmas.RegistryDns.
 From CPGen Require Import Tables.
 Open Scope Z_scope.
 
